@@ -528,7 +528,10 @@ impl BudgetEnforcer {
             && self.report.aliases >= self.budget.alias_anchor_min_aliases
             && (self.report.anchors == 0
                 || self.report.aliases
-                    > self.budget.alias_anchor_ratio_multiplier * self.report.anchors)
+                    > self
+                        .budget
+                        .alias_anchor_ratio_multiplier
+                        .saturating_mul(self.report.anchors))
         {
             self.report.breached = Some(BudgetBreach::AliasAnchorRatio {
                 aliases: self.report.aliases,
